@@ -109,6 +109,7 @@ def apply(unit_facts, log=None):
             if k in seen:
                 continue
             seen[k] = 1
+            _strength_forms(fd, log)
             _compound_assignments(fd, log)
             known = inv["functions"].get(fd["file"], {}).get(fd.get("inv_name", fd["name"]))
             _propagate_new_locals(fd, known, log)
@@ -526,6 +527,61 @@ def _expand_flag_branches(fd, log):
     if n:
         fd["blocks"].extend(new_blocks)
         log.add("N7", "%s(): %d branch(es) on a substituted flag split into their leaf conditions" % (fd["name"], n))
+
+
+# --------------------------------------------------------------------------
+# N6 `x % 2^k`, `x / 2^k` of a value that cannot be negative are `x & (2^k - 1)`, `x >> k`
+
+def _nonneg_operand(fd, i):
+    """The operand's value cannot be negative by its type: unsigned, or a narrower unsigned type promoted to int."""
+    exprs = fd["exprs"]
+    e = exprs[i]
+    it = e.get("it")
+    if it and not it[1]:
+        return True
+    n = 0
+    while e["k"] == "cast" and e.get("c") and n < 8:
+        n += 1
+        src = exprs[e["c"][0]]
+        sit = src.get("it")
+        if e.get("ck") == "IntegralCast" and sit and not sit[1] and it and sit[0] < it[0]:
+            return True
+        if e.get("ck") not in ("LValueToRValue", "NoOp", "IntegralCast"):
+            return False
+        if e.get("ck") == "IntegralCast" and not (sit and it and sit[0] <= it[0]):
+            return False
+        e = src
+        it = e.get("it")
+        if it and not it[1]:
+            return True
+    return False
+
+
+def _strength_forms(fd, log):
+    exprs = fd["exprs"]
+    n = 0
+    for e in exprs:
+        if e["k"] != "bin" or e.get("op") not in ("%", "/") or "v" in e:
+            continue
+        r = exprs[_strip(fd, e["c"][1])] if e["c"][1] is not None and e["c"][1] >= 0 else None
+        rc = exprs[e["c"][1]]
+        v = rc.get("v", r.get("v") if r else None)
+        if not isinstance(v, int) or v <= 1 or v & (v - 1):
+            continue
+        if not _nonneg_operand(fd, e["c"][0]):
+            continue
+        k = v.bit_length() - 1
+        # the constant node is shared by nobody else: rewrite it in place
+        tgt = rc
+        while tgt["k"] == "cast" and tgt.get("c"):
+            tgt["v"] = (v - 1) if e["op"] == "%" else k
+            tgt = exprs[tgt["c"][0]]
+        tgt["v"] = (v - 1) if e["op"] == "%" else k
+        e["op"] = "&" if e["op"] == "%" else ">>"
+        e["n6"] = 1
+        n += 1
+    if n:
+        log.add("N6", "%s(): %d division(s)/remainder(s) by a power of two of a non-negative value read as shift/mask" % (fd["name"], n))
 
 
 # --------------------------------------------------------------------------
